@@ -1479,9 +1479,20 @@ def run(ctx):
     ctx.trusted += ["TLC", "harness/pipe_driver.c + harness/pd_ext_c01.c (hook H4 call-back, destructor trampoline, interposed manager tables, pool poisoning)",
                     "harness/vloop.c", "gcc AddressSanitizer / UndefinedBehaviorSanitizer / LeakSanitizer",
                     "hook H4 in include/upipe/urefcount.h"]
+    # second stage: the same trace specification over every buildable pipe type (checks/c01_types.py)
+    try:
+        from checks import c01_types
+    except ImportError:
+        c01_types = None
+    if c01_types is not None:
+        c01_types.run_part(ctx)
+
 
 
 def replay(ctx, rp):
+    if rp.get("replay", {}).get("part") == "types":
+        from checks import c01_types
+        return c01_types.replay(ctx, rp)
     binp = build(ctx)
     e = Exe(rp["replay"]["cmds"], "replay", rp["replay"].get("pool", 0))
     execute(ctx, binp, [e], jobs=1)
